@@ -390,9 +390,14 @@ func (t *table) loadBlock(idx int) (*block, error) {
 	// +--------------------------------+
 
 	readPos := len(b.data) - 4 // First read checksum length.
+	if readPos < 0 {
+		return nil, errors.New("block too short to hold a checksum length. The data is corrupted")
+	}
 	b.chkLen = int(kv.BytesToU32(b.data[readPos : readPos+4]))
 
-	if b.chkLen > len(b.data) {
+	// The checksum sits in front of its length word, so it cannot be longer than what is left
+	// there (the length word itself is the one part of a block the checksum does not cover).
+	if b.chkLen > readPos {
 		return nil, errors.New("invalid checksum length. Either the data is " +
 			"corrupted or the table options are incorrectly set")
 	}
